@@ -18,7 +18,7 @@ KINDS_QUICK = ["k_inter", "k_planar", "k_xystep", "k_pT", "k_packed", "k_bits7",
 KINDS_ALL = ["k_inter", "k_gray16", "k_rgba32f", "k_planar", "k_planar16", "k_xstep", "k_xystep", "k_xyT", "k_pstep", "k_pT",
              "k_packed", "k_packstep", "k_bits", "k_bits7", "k_bits1", "k_bitstep", "k_nth", "k_kth", "k_deref", "k_virt"]
 NPROBE = {"k_planar": 3, "k_planar16": 3, "k_pstep": 3, "k_pT": 3}
-CHAN_KINDS = ["k_inter", "k_gray16", "k_planar", "k_xstep", "k_xystep", "k_pstep", "k_xyT"]
+CHAN_KINDS = ["k_inter", "k_gray16", "k_planar", "k_xstep", "k_xystep", "k_pstep", "k_xyT", "k_pT"]
 
 
 def load_spec():
